@@ -9,13 +9,18 @@
    * every single-excitation table entry is the Spec action (target and sign),
      and a string has an entry iff the action is non-zero                        : C05_single_exc, C05_number_op
    * sources / targets of one map are pairwise distinct (injectivity)           : C05_single_exc_injective
-  Carried by the correspondence only (stated in DESIGN.md as still open): Gosper enumeration = sorted
-  subsets, Z-matrix address = lexical rank, k-fold maps.
+   * Z-matrix closed form; address = lexical rank; the string table = all k-subsets in lexical order,
+     each exactly once                                                            : C05_zmatrix_closed, C05_address,
+                                                                                    C05_string_table, C05_enumeration_reference
+   * operator-string loop = descending ladder product                            : C05_opstring
+  Carried by the correspondence only (still open): the C generator (Gosper's hack) = sorted subsets, k-fold
+  cross-sector maps, de-excitation row fill count.
 -/
 import FqeVerif.Lemmas.BitsC
 import FqeVerif.Lemmas.Excite
 import FqeVerif.Lemmas.MapEach
 import FqeVerif.Lemmas.Subsets
+import FqeVerif.Lemmas.Address
 namespace C05
 open Model Fock
 
@@ -139,6 +144,32 @@ theorem C05_enumeration_reference (n k s : Nat) :
   ⟨mem_subsetsAsc n k s, mem_subsetsLex n k s, subsetsAsc_sorted n k, subsetsAsc_nodup n k, subsetsLex_nodup n k⟩
 
 example : subsetsAsc 4 2 = [3, 5, 6, 9, 10, 12] ∧ subsetsLex 4 2 = [3, 5, 9, 6, 10, 12] := by decide
+
+/-- **addressing**: for every orbital count and electron count the string table built by scattering the
+    generated strings to their Knowles–Handy addresses (Z matrix as the library computes it) *is* the list of
+    all k-subsets in the documented lexical order — each occupation pattern exactly once
+    (`C05_enumeration_reference`), nothing missing, no slot left unwritten -/
+theorem C05_string_table (n k : Nat) : stringTable n k = subsetsLex n k :=
+  stringTable_eq_subsetsLex n k
+
+/-- address lookup and string lookup are mutually inverse: the address of a pattern is its position in the
+    table, and the table entry at that address is the pattern; distinct patterns have distinct addresses,
+    all below `C(n, k)` -/
+theorem C05_address (n k s : Nat) (h : s ∈ subsetsLex n k) :
+    addressOf n k s = (lexIndex n k s : Int) ∧ (stringTable n k)[lexIndex n k s]? = some s ∧
+    lexIndex n k s < Nat.choose n k ∧
+    (∀ t ∈ subsetsLex n k, addressOf n k t = addressOf n k s → t = s) := by
+  refine ⟨addressOf_eq_lexIndex n k s h, ?_, lexIndex_lt n k s h, ?_⟩
+  · rw [C05_string_table]; exact getElem_lexIndex n k s h
+  · intro t ht hts
+    rw [addressOf_eq_lexIndex n k s h, addressOf_eq_lexIndex n k t ht] at hts
+    exact lexIndex_injective n k t s ht h (by exact_mod_cast hts)
+
+/-- the Z matrix in closed form (every admissible entry, last row included) -/
+theorem C05_zmatrix_closed (norb nele r c : Nat) (hr : r < nele) (hrc : r ≤ c) (hc : c ≤ norb - nele + r)
+    (hn : nele ≤ norb) :
+    zEntry norb nele r c = (Nat.choose (norb - r - 1) (nele - r) : Int) - Nat.choose (norb - c - 1) (nele - r) :=
+  zEntry_closed norb nele r c hr hrc hc hn
 
 /-- **operator-string tables**: for any lists of creation and annihilation indices (any length, repeated
     indices allowed) and any string on which the operator string `a†_{dag…} a_{undag…}` acts (rightmost
